@@ -9,6 +9,7 @@ import (
 	"net/http"
 	"net/url"
 	"strings"
+	"sync"
 	"time"
 
 	jose "github.com/go-jose/go-jose/v4"
@@ -22,14 +23,14 @@ import (
 // World is one simulated deployment: a provider node over SimStore, the
 // network, browsers, and a ledger of everything honest parties emitted.
 type World struct {
-	O         *kernel.Outcome
-	Tape      *kernel.Tape
-	Cfg       *kernel.Chooser
-	Store     *Store
-	Net       *Net
-	OP        *OPNode
-	Issuer    string
-	Router    string
+	O      *kernel.Outcome
+	Tape   *kernel.Tape
+	Cfg    *kernel.Chooser
+	Store  *Store
+	Net    *Net
+	OP     *OPNode
+	Issuer string
+	Router string
 	// QueryKeys names form parameters that PostForm sends in the URL query instead of the body.
 	QueryKeys []string
 	CryptoKey [32]byte
@@ -95,8 +96,16 @@ func NewStd(o *kernel.Outcome, tape *kernel.Tape, opt StdOptions) (*World, error
 	w := &World{O: o, Tape: tape, Cfg: cfg, Store: NewStore(), Issuer: "https://op.sim", ClientKeys: map[string]jose.JSONWebKey{},
 		Ledger: &Ledger{Codes: map[string]string{}, Access: map[string]*TokenRecord{}, Refresh: map[string]*TokenRecord{}, IDs: map[string]*TokenRecord{}}}
 	w.Start = time.Now()
-	yields := tape.Sub("store-yields")
-	w.Store.Yields = func() int { return 1 + yields.Int(3) }
+	// how many times a storage call yields: its own little generator (seeded from the tape once), safe to use from the
+	// free-running goroutines of the race mixes, which must not touch the tape
+	var ymu sync.Mutex
+	ystate := uint64(tape.Sub("store-yields").Int(1<<30)) + 1
+	w.Store.Yields = func() int {
+		ymu.Lock()
+		defer ymu.Unlock()
+		ystate = ystate*6364136223846793005 + 1442695040888963407
+		return 1 + int((ystate>>33)%3)
+	}
 	w.Router = opt.Router
 	if w.Router == "" {
 		w.Router = cfg.Pick("A", "B")
